@@ -72,8 +72,8 @@ Section Compile.
           when (nonempty (ob_nulls o)) [kw " "; kw (ob_nulls o)]].
 
   Definition c_fromitem (f : exp -> W) (i : fromitem exp) : W :=
-    if fi_lateral i && fi_only i then WErr EkLateralOnly
-    else WSeq [when (fi_only i) [kw "ONLY "];
+    WSeq [when (fi_lateral i && fi_only i) [WErr EkLateralOnly];
+               when (fi_only i) [kw "ONLY "];
                when (fi_lateral i) [kw "LATERAL "];
                f (fi_from i);
                when (nonempty (fi_alias i)) [kw " AS "; WRaw (fi_alias i)];
@@ -190,8 +190,7 @@ Section Compile.
        | Some cols => WSeq [kw " ("; WSeq (sep_by (WSeq [kw ","; WPretty PwComma]) (map (@WRaw V) cols)); kw ")"]
        | None => WSeq []
        end] in
-    if opt_nonnil (i_values b) && negb (is_nil (i_query b)) then WSeq (head ++ [WErr EkValuesQuery])
-    else
+    let conflict := when (opt_nonnil (i_values b) && negb (is_nil (i_query b))) [WErr EkValuesQuery] in
       let body :=
         if negb (is_nil (i_query b)) then WSeq [kw " "; finner (i_query b)]
         else match i_values b with
@@ -203,14 +202,12 @@ Section Compile.
                                                       kw ")"]) rows))]
              | None => when (i_default b) [kw " DEFAULT VALUES"]
              end in
-      if negb (nonempty (i_caction b)) then WSeq (head ++ [body; c_returning f (i_returning b)])
+      if negb (nonempty (i_caction b)) then WSeq (head ++ [conflict; body; c_returning f (i_returning b)])
       else
         let conflict_head := [WPretty PwBreak; kw "ON CONFLICT"] in
-        if nonempty (i_cconstraint b) && nonnil (i_ctargets b)
-        then WSeq (head ++ [body] ++ conflict_head ++ [WErr EkConflict])
-        else
-          WSeq (head ++ [body] ++ conflict_head ++
-                [when (nonempty (i_cconstraint b)) [kw " ON CONSTRAINT "; WRaw (i_cconstraint b)];
+          WSeq (head ++ [conflict; body] ++ conflict_head ++
+                [when (nonempty (i_cconstraint b) && nonnil (i_ctargets b)) [WErr EkConflict];
+                 when (nonempty (i_cconstraint b)) [kw " ON CONSTRAINT "; WRaw (i_cconstraint b)];
                  when (nonnil (i_ctargets b))
                    [kw " ("; WSeq (sep_by (kw ",") (map f (i_ctargets b))); kw ")"];
                  when (nonnil (i_ctwhere b)) [kw " WHERE "; c_junction f (i_ctwhere b) "AND"];
